@@ -138,6 +138,43 @@ def inside(span4, rng4):
     return (rng4[0], rng4[1]) <= (span4[0], span4[1]) <= (span4[2], span4[3]) <= (rng4[2], rng4[3])
 
 
+OPT_CASES = [
+    # (source, diverging statement, first dead statement): the optimizer's warning lies within the dead statement, its hint
+    # within the statement that diverges
+    ('fn f(n: int) -> int {\n    let a = n + 1;\n    return n * 2;\n    println("never printed");\n    a\n}\nfn main() {\n    println(f(4));\n}\n', "return n * 2;", 'println("never printed");'),
+    ('fn main() {\n    let i = 0;\n    loop {\n        i += 1;\n        if i > 2 {\n            break;\n        }\n    }\n    println(i);\n    throw("stop");\n    println("dead one");\n    println("dead two");\n}\n', 'throw("stop");', 'println("dead one");'),
+    ('fn spin() {\n    // c\n    loop {\n    }\n    let unreachable_local = 1;\n    println(unreachable_local);\n}\nfn main() {\n    println(1);\n}\n', "loop {\n    }", "let unreachable_local = 1;"),
+]
+
+
+def optimizer_directed(ctx):
+    from props.C19 import line_for
+    go = core.go_lines("optimize", [line_for("optimize", src, None, "") for src, _, _ in OPT_CASES], timeout=120)
+    for (src, div, dead), g in zip(OPT_CASES, go):
+        ctx.count(case_key=("optimizer", src), nontrivial=True)
+        rep = {"kind": "optimizer-directed", "main": src}
+        od = [p for p in g.split(" | ") if p.startswith("ODIAGS=")]
+        if g.startswith(("CRASH", "HANG", "PANIC")) or not od:
+            ctx.broken.append(f"generator:optimizer: no optimizer diagnostics for {src[:60]!r}: {g[:120]}")
+            continue
+        items = []
+        for it in od[0][len("ODIAGS="):].split(";"):
+            if it:
+                lvl, sp, f, m = it.split("@")
+                a, e = sp.split("-")
+                items.append((int(lvl), tuple(int(x) for x in a.split(".")) + tuple(int(x) for x in e.split(".")), core.unhex(f), core.unhex(m)))
+        for prefix, lvl, culprit in (("Unreachable statement", 2, dead), ("Any code following this statement", 0, div)):
+            hits = [it for it in items if it[0] == lvl and it[3].startswith(prefix)]
+            if not hits:
+                ctx.broken.append(f"generator:optimizer: expected message {prefix!r} not reported for {src[:60]!r}")
+                continue
+            rng_ = tg.locate(src, culprit)
+            _, sp, f, m = hits[0]
+            if f != "main" or not inside(sp, rng_):
+                ctx.violation(dict(rep, message=m, span=list(sp), culprit_range=list(rng_)),
+                              f"C08 optimizer: {m[:50]!r} is reported at {f}:{sp}, the culprit {culprit!r} is at main:{rng_}")
+
+
 def static_directed(ctx, seen):
     cases = tg.static_cases(ctx.rng, 2 if ctx.tier == "quick" else 12)
     res = tg.run_total(cases)
@@ -333,6 +370,7 @@ def run(ctx):
     if len(ctx.violations) < MAX_VIOLATIONS:
         static_directed(ctx, seen)
         runtime_directed(ctx, seen)
+        optimizer_directed(ctx)
 
     # 3. ties of the transcription
     if not ctx.violations:
